@@ -115,6 +115,68 @@ theorem opsOK_of_oinv (es : WEdges) (L : Nat) (M : List Row) (h : OInv es L M) :
           · exact Or.inr (Or.inr (Or.inr (Or.inl ⟨by omega, Or.inr (Or.inl rfl)⟩)))
           · exact Or.inl rfl
 
+theorem colsOK_of_oinv (es : WEdges) (L : Nat) (M : List Row) (h : OInv es L M) : ColsOK (opAtS M) := by
+  refine ⟨?_, ?_⟩
+  · intro i hi
+    obtain ⟨v, rfl⟩ : ∃ v, i = v + 1 := ⟨i - 1, by omega⟩
+    unfold opAtS getP
+    cases hM : M[v + 1]? with
+    | none => simp [opCost]
+    | some r =>
+      obtain ⟨cs, s, e⟩ := r
+      obtain ⟨hs, hok⟩ := h.rows v cs s e hM
+      subst hs
+      simp only [Option.getD_some]
+      split
+      · rename_i hc
+        cases cs with
+        | nil => simp at hc
+        | cons a l =>
+          have := (hok 0 a rfl).2.1 rfl
+          simp only [Nat.sub_zero, List.getD, List.getElem?_cons_zero, Option.getD_some]
+          rcases this with e1 | ⟨r, e1⟩ <;> rw [e1] <;> rfl
+      · simp [opCost]
+  · intro i j c d hy
+    unfold opAtS getP at hy
+    cases i with
+    | zero =>
+      obtain ⟨cs, e, h1, h2, h3, h4⟩ := h.r0
+      simp only [h1, Option.getD_some] at hy
+      split at hy
+      · simp only [Nat.sub_zero] at hy
+        rcases Nat.lt_or_ge j cs.length with hjl | hjl
+        · simp only [List.getD, List.getElem?_eq_getElem hjl, Option.getD_some] at hy
+          rcases h4 j cs[j] (List.getElem?_eq_getElem hjl) with ⟨h5, _⟩ | h5 | ⟨d', h5⟩
+          · rw [h5] at hy; cases hy
+          · rw [h5] at hy; cases hy
+          · rw [h5] at hy; cases hy; omega
+        · simp only [List.getD, List.getElem?_eq_none hjl, Option.getD_none, mcell] at hy; cases hy
+      · split at hy
+        · cases hy
+        · split at hy <;> simp only [mcell] at hy <;> cases hy
+    | succ v =>
+      cases hM : M[v + 1]? with
+      | none =>
+        simp only [hM, Option.getD_none, List.isEmpty_nil, Bool.or_true, Bool.not_true, Bool.false_eq_true, if_false] at hy
+        split at hy
+        · cases hy
+        · split at hy <;> simp only [mcell] at hy <;> cases hy
+      | some r =>
+        obtain ⟨cs, s, e⟩ := r
+        obtain ⟨hs, hok⟩ := h.rows v cs s e hM
+        subst hs
+        simp only [hM, Option.getD_some] at hy
+        split at hy
+        · simp only [Nat.sub_zero] at hy
+          rcases Nat.lt_or_ge j cs.length with hjl | hjl
+          · simp only [List.getD, List.getElem?_eq_getElem hjl, Option.getD_some] at hy
+            have := (hok j cs[j] (List.getElem?_eq_getElem hjl)).2.2 c d hy
+            omega
+          · simp only [List.getD, List.getElem?_eq_none hjl, Option.getD_none, mcell] at hy; cases hy
+        · split at hy
+          · cases hy
+          · split at hy <;> simp only [mcell] at hy <;> cases hy
+
 theorem add64_val {a b t : Nat} (h : Rs.add 64 a b = ok t) : t = a + b := by
   unfold Rs.add at h; split at h
   · simp only [Res.ok.injEq] at h; exact h.symm
@@ -222,7 +284,7 @@ theorem step_dag (sc : Sc) (xp xs yp ys : Int) (g g' : G) (q : List Nat) (t : BT
     (hm : g.labels.length + 1 < 2 ^ 64) (hn : q.length + 1 < 2 ^ 64) (hq : 0 < q.length)
     (hC : customTableC sc xp xs yp ys g.labels g.es q = some t)
     (h : srcStep sc xp xs yp ys g q = ok g') :
-    Dag g' ∧ Grows g g' := by
+    Dag g' ∧ Grows g g' ∧ g'.labels.length ≤ g.labels.length + q.length := by
   obtain ⟨tb, e, el, ec, er, hO, _⟩ := custom_score_eq_model sc xp xs yp ys g.labels g.es q t (graphOK_of_dag g hg) hm hn hC
   unfold srcStep at h
   have hgg : (⟨g.labels, g.es⟩ : G) = g := rfl
@@ -243,12 +305,33 @@ theorem step_dag (sc : Sc) (xp xs yp ys : Int) (g g' : G) (q : List Nat) (t : BT
         · split at hC
           · cases hC
           · simp only [Option.some.injEq] at hC; rw [← hC]
+  have hN : t.n = q.length := by
+    unfold customTableC at hC
+    simp only at hC
+    split at hC
+    · cases hC
+    · split at hC
+      · cases hC
+      · split at hC
+        · cases hC
+        · split at hC
+          · cases hC
+          · simp only [Option.some.injEq] at hC; rw [← hC]
+  have hcols := colsOK_of_oinv g.es t.last tb.matrix (hO hq)
   have hok := opsOK_of_oinv g.es t.last tb.matrix (hO hq)
   rw [hL] at hok
   rw [heq, hops]
-  refine ⟨traceF_add_dag g q hg _ hok _ _ _, ?_⟩
-  unfold addAlignment
-  exact (foldl_addStep_grows _ q _ { g := g, prev := (topo g.labels.length g.es).headD 0 }).1
+  refine ⟨traceF_add_dag g q hg _ hok _ _ _, ?_, ?_⟩
+  · unfold addAlignment
+    exact (foldl_addStep_grows _ q _ { g := g, prev := (topo g.labels.length g.es).headD 0 }).1
+  · have h1 := (addAlignment_grows g (traceF (opAtS tb.matrix) ((tb.rows + 3) * (tb.cols + 3)) (tb.last + 1) tb.cols []) q).2
+    have h2 := traceF_consuming _ hcols ((tb.rows + 3) * (tb.cols + 3)) (tb.last + 1) tb.cols []
+    have hcq : tb.cols = q.length := by rw [ec, hN]
+    have h3 : consuming ([] : List POp) = 0 := rfl
+    rw [h3] at h2
+    generalize consuming (traceF (opAtS tb.matrix) ((tb.rows + 3) * (tb.cols + 3)) (tb.last + 1) tb.cols []) = k at h1 h2
+    generalize (addAlignment g (traceF (opAtS tb.matrix) ((tb.rows + 3) * (tb.cols + 3)) (tb.last + 1) tb.cols []) q).labels.length = k2 at h1 ⊢
+    omega
 
 /-- one step of a history: scoring, the four clip penalties (`global`: all `MIN_SCORE`; `semiglobal`: y clips 0; `local`: all 0;
 `custom`: as configured), query -/
@@ -268,17 +351,19 @@ def HistOK : G → List HS → Prop
       ∀ g', stepOf s g = ok g' → HistOK g' rest
 
 theorem history_dag : ∀ (steps : List HS) (g0 g : G), Dag g0 → HistOK g0 steps → srcHistory g0 steps = ok g →
-    Dag g ∧ Grows g0 g
+    Dag g ∧ Grows g0 g ∧ g.labels.length ≤ g0.labels.length + (steps.map fun s => s.2.2.length).sum
   | [], g0, g, hd, _, h => by
     simp only [srcHistory, List.foldlM_nil, Res.pure_eq_ok, Res.ok.injEq] at h
-    subst h; exact ⟨hd, Grows.refl _⟩
+    subst h; exact ⟨hd, Grows.refl _, by simp⟩
   | s :: rest, g0, g, hd, hok, h => by
     simp only [srcHistory, List.foldlM_cons, Res.bind_eq_ok] at h
     obtain ⟨g1, h1, h2⟩ := h
     obtain ⟨hq, hn, hm, hC, hnext⟩ := hok
     obtain ⟨t, ht⟩ := Option.isSome_iff_exists.mp hC
-    obtain ⟨hd1, hg1⟩ := step_dag s.1 _ _ _ _ g0 g1 s.2.2 t hd hm hn hq ht h1
-    obtain ⟨hd2, hg2⟩ := history_dag rest g1 g hd1 (hnext g1 h1) h2
-    exact ⟨hd2, hg1.trans hg2⟩
+    obtain ⟨hd1, hg1, hn1⟩ := step_dag s.1 _ _ _ _ g0 g1 s.2.2 t hd hm hn hq ht h1
+    obtain ⟨hd2, hg2, hn2⟩ := history_dag rest g1 g hd1 (hnext g1 h1) h2
+    refine ⟨hd2, hg1.trans hg2, ?_⟩
+    simp only [List.map_cons, List.sum_cons]
+    omega
 
 end RbV.Thm.GenSrcPoaHistory
